@@ -98,6 +98,7 @@ Definition acked_durable (ops : list op) (acked : nat) : bool :=
   end.
 
 Record world := {
+  w_id : list N;            (* the request ID (bytes) *)
   w_fs : list N;            (* fractions of the request in the order of asyncSearchInfo.Fractions *)
   w_hi : N; w_rev : bool; w_limit : N; w_naggs : nat;
   w_per : list (N * qpr);   (* per-fraction partial results (real DataProvider.Search), by fraction number *)
@@ -162,9 +163,9 @@ Definition case_agrees (c : case) : bool :=
       dir_eqb s obs
       && list_eqb op_eqb rops ops
       && dir_eqb fin final
-      && Bool.eqb (found s) fnd
+      && Bool.eqb (found_as (w_id w) s) fnd
       && Bool.eqb (is_done fin) dn
-      && qpr_eqb (if found s then fetch_dir (w_hi w) (w_rev w) (w_per w) fin else qpr_zero) res
+      && qpr_eqb (if found_as (w_id w) s then fetch_dir (w_hi w) (w_rev w) (w_per w) fin else qpr_zero) res
   | CRace w k fnd dn res =>
       (* the fetch took its snapshot at the resumed state or at some later state of the run *)
       let ops := start_ops (w_fs w) in
